@@ -78,7 +78,10 @@ func TestWorker(t *testing.T) {
 				if i >= 3 {
 					break
 				}
+				pb, _ := json.Marshal(p)
+				emit("START " + string(pb))
 				chk.Run(t, p)
+				emit("WARMED")
 			}
 		}
 	}
